@@ -156,7 +156,7 @@ Writable(cls) == cls \in {"same", "arr", "voidp", "charp", "ucharp", "list_ok", 
 
 FieldOk(t) == CASE t.k = "ptr" -> CPtr(t, 0) [] OTHER -> ItemOk(t)
 StructClasses == {"same", "other", "list_ok", "tuple_ok", "list_short", "list_long", "list_ovf",
-                  "list_badtype", "none", "int", "ptr_to_same"}
+                  "list_badtype", "none", "int", "ptr_to_same", "dict_ok", "dict_short"}
 StructRep(t, cls) ==
     LET n == Len(t.fields) oks == [i \in 1..n |-> FieldOk(t.fields[i])] IN
     CASE cls = "same" -> [k |-> "cstruct", ct |-> t, vals |-> oks]
@@ -168,6 +168,8 @@ StructRep(t, cls) ==
       [] cls = "list_badtype" -> PList([oks EXCEPT ![1] = PNone])
       [] cls = "none" -> PNone [] cls = "int" -> PI(0)
       [] cls = "ptr_to_same" -> CPtr(PtrT(t), 1)
+      [] cls = "dict_ok" -> [k |-> "dict", keys |-> [i \in 1..n |-> n + 1 - i], items |-> [i \in 1..n |-> oks[n + 1 - i]]]
+      [] cls = "dict_short" -> [k |-> "dict", keys |-> <<n>>, items |-> <<oks[n]>>]
 
 Classes(n) == IF n \in Ints THEN IntClasses
               ELSE IF n = "bool" THEN BoolClasses ELSE IF n = "char" THEN CharClasses
